@@ -46,9 +46,9 @@ def main():
         "setup_cmd": "python3 tools/setup.py",
         "hooks": {
             "guard": "verif",
-            "enable": "go build -tags verif (engine/verif_access.go, engine/verif_sync.go are //go:build verif; engine/verif_nosync.go provides empty hook bodies otherwise)",
+            "enable": "go build -tags verif (engine/verif_access.go, engine/verif_sync.go are //go:build verif; engine/verif_nosync.go provides empty hook bodies otherwise; VERIF_STABLE_SORT=1 additionally makes move ordering a stable sort for the exact trace correspondence)",
             "baseline_off_cmd": "cd /repo && go build ./... && go test -vet=off -count=1 -json -timeout 25m ./...",
-            "source_commits": ["6489b42", "37031dc", "07471b8"],
+            "source_commits": ["6489b42", "37031dc", "07471b8", "ddc255a"],
             "add_only": True,
         },
         "engines": [
